@@ -13,6 +13,16 @@ CLAIMED = {
             "Every simulated run drives real mls-rs members (2-40 parties) through a seeded history of commits, proposals, external commits, identity changes, removals and re-adds under a simulated delivery service; whenever a member reaches an epoch its context, roster, exported tree, epoch authenticator and three exported secrets must equal those of the first member that reached it, epochs must advance by exactly one, and every application message delivered in its epoch must decrypt with the true sender, payload and AAD. After faults stop, everything outstanding is delivered and one more commit must be accepted by all live members (bounded liveness). Sampled, not exhaustive.",
             "trusted: the simulator's membership/pending model (decides which deliveries must succeed), RustCrypto with PRNG-driven key generation; OpenSSL/AWS-LC mixes are covered by C14",
             "DESIGN.md §6.C01"),
+    "C03": ("exploration",
+            "deterministic simulation with network corruption faults (bit flips, truncations, splices of two valid messages, stale and losing commits) and a Byzantine member (honest library + commit-modifier hook signing structurally invalid update paths / leaves / trees)",
+            "On top of the C01 world, corrupted copies of every message kind the delivery service carries are delivered before or after the genuine copy, and a current member signs commits with a too short / too long / permuted update path, foreign keys, a wrong parent hash or an invalid leaf; every such delivery must return an error (never a panic, never acceptance), genuine deliveries must still report the true sender, payload and AAD, and the group must still converge after the faults stop. Sampled positions and histories.",
+            "trusted: the simulator's notion of which mutated bytes are 'modified' (any byte difference), the H4 hook producing the structurally invalid commits; forging PrivateMessages and Welcome/GroupInfo corruption for joiners are covered under C07/C16",
+            "DESIGN.md §6.C03"),
+    "C04": ("exploration",
+            "deterministic simulation: complete member state (hook H1, per component) captured before every delivery / build that returns an error and compared afterwards; rejected inputs from corruption, wrong epoch, missing proposals, Byzantine commits failing at different pipeline stages",
+            "Every delivery or commit/proposal build that returns Err is bracketed by a component-wise snapshot of the complete member state (context, proposal caches, tree, private tree, epoch secrets incl. ratchets, key schedule, pending updates, pending commit, signer, pending prior-epoch records); any difference is a violation, the genuine copy of a rejected message must still be accepted afterwards, and the group must still converge (bounded liveness). A probe records which error class each rejection came from so evidence shows the stages reached.",
+            "trusted: hook H1 encodes all state of a member; the cache-fill rule for prior-epoch records (DESIGN §5)",
+            "DESIGN.md §6.C04"),
 }
 
 NOT_APPLICABLE = {
